@@ -3,6 +3,8 @@ package main
 
 import (
 	"fmt"
+	"go/ast"
+	"sort"
 	"regexp"
 	"strings"
 
@@ -64,5 +66,34 @@ func main() {
 			ex.StrList(wiretok.FieldMentions(t.dir, t.recv, "Serialize")), ex.StrList(wiretok.FieldMentions(t.dir, t.recv, "Deserialize")), sep)
 	}
 	fmt.Println("]")
+	// the restore layer of the DPoS checkpoint: CheckPoint → Arbiters (recoverFromCheckPoints, run by
+	// OnInit after Manager.Restore) and Arbiters → CheckPoint (initFromArbitrators, run by Snapshot):
+	// the CheckPoint fields each of them mentions
+	{
+		bp := wiretok.Load(D)
+		fd, ok := bp.Funcs["Arbiters.recoverFromCheckPoints"]
+		if !ok || len(fd.Type.Params.List) != 1 || len(fd.Type.Params.List[0].Names) != 1 {
+			ex.Die("dpos/state: Arbiters.recoverFromCheckPoints(point) not found")
+		}
+		param := fd.Type.Params.List[0].Names[0].Name
+		isField := map[string]bool{}
+		for _, f := range wiretok.StructFields(D, "CheckPoint") {
+			isField[f] = true
+		}
+		seen := map[string]bool{}
+		var rec []string
+		ast.Inspect(fd.Body, func(n ast.Node) bool {
+			if sel, ok := n.(*ast.SelectorExpr); ok {
+				if x, ok := sel.X.(*ast.Ident); ok && x.Name == param && isField[sel.Sel.Name] && !seen[sel.Sel.Name] {
+					seen[sel.Sel.Name] = true
+					rec = append(rec, sel.Sel.Name)
+				}
+			}
+			return true
+		})
+		sort.Strings(rec)
+		fmt.Printf("def restoreLayer : List String × List String × List String :=\n  (%s,\n   %s,\n   %s)\n",
+			ex.StrList(wiretok.StructFields(D, "CheckPoint")), ex.StrList(rec), ex.StrList(wiretok.FieldMentions(D, "CheckPoint", "initFromArbitrators")))
+	}
 	ex.Footer("C23")
 }
